@@ -147,6 +147,9 @@ Qed.
 Lemma w_openat2_one fz fd p fl m rs : calls_le is_openat2 1 (w_openat2 fz fd p fl m rs).
 Proof.
   unfold w_openat2. destruct (negb (valid_fd fd)); [constructor|].
+  destruct (OPENAT2_NUL_EINVAL && has_nul p).
+  { eapply calls_le_mono; [|apply Nat.le_0_1]. unfold fail1. change 0%nat with (0 + 0)%nat.
+    apply calls_le_bind; [apply frozen_no_openat2|]. intro; constructor. }
   apply cl_call_hit; [reflexivity|]. intro r. destruct (as_fd r); [constructor|].
   unfold fail1. change 0%nat with (0 + 0)%nat. apply calls_le_bind; [apply frozen_no_openat2|]. intro; constructor.
 Qed.
